@@ -24,7 +24,7 @@ def run(pid, tier, seed):
     mcs = [mc]
     if tier == "thorough":
         mcs.append(vlib.mc_or_die("MC_Mailbox", "MC_Mailbox_mid.cfg", workers=14, timeout=3000))
-        mcs.append(vlib.mc_or_die("MC_Mailbox", "MC_Mailbox_big.cfg", workers=14, timeout=5000))
+        mcs.append(vlib.mc_or_die("MC_Mailbox", "MC_Mailbox_big.cfg", workers=14, timeout=1500, partial_ok=True))
         mcs.append(vlib.mc_or_die("MC_Mailbox", "MC_Mailbox_live.cfg", workers=8, timeout=1800))
     for m in mcs:
         if m["violated"]:
